@@ -54,6 +54,14 @@ class FunctionReport:
         self.trivial = 0
         self.paths = 0
         self.wall = 0.0
+        # defaults for a report that ends early (the function named by the contract no longer exists in the tree under test)
+        self.pending = []
+        self.oos_paths = []
+        self.lemma_instances = []
+        self.ctx = ([], [], [])
+        self.input_terms = {}
+        self.def_groups = {}
+        self.sdict_facts = {}
 
 
 class Engine(CoreMixin, ExprMixin, CallMixin, StmtMixin, BuiltinMixin):
